@@ -592,6 +592,8 @@ def run_unit(unit, tier, keep=False, verbose=False):
 
 
 def is_unchecked(unit, key, sl):
+    if os.environ.get('VERIF_CHECK_UNCHECKED'):      # development: check the excluded obligations too
+        return False
     for e in unit.get('unchecked', []):
         if not re.search(e['key'], key):
             continue
